@@ -26,7 +26,7 @@ CLAIMED = {
               'encoder) read by BOTH library readers of each format, each compared with its own Lean model and with the other '
               '(dimension lengths, float data as bits, time flags / timerange), incl. files with irregular time axes for the '
               'record-reader model.'),
-        note=BASE_NOTE + 'record readers: one3d family, height/pressure, temperature and gridded (uamiv) files modelled and proved (readers_agree, readers_agree_temperature, uamiv_readers_agree_words, uamiv_read_encode); the wind record reader is compared (with the Memmap reader and the encoded content), not modelled. Python int(a/b) on floats is taken to equal truncating integer division at these magnitudes.',
+        note=BASE_NOTE + 'record readers: one3d family, height/pressure, temperature, gridded (uamiv) and wind files are all modelled and proved (readers_agree, readers_agree_temperature, uamiv_readers_agree_words, uamiv_read_encode, wind_readers_agree); one-step wind files and the irregular axes are covered by the correspondence only. Python int(a/b) on floats is taken to equal truncating integer division at these magnitudes.',
         technique='Lean 4 proof (chunking/regrouping lemmas over framed records) + model/implementation correspondence for both reader families + reader-vs-reader oracle',
         design='§7 C08-C09-C13-C14'),
     'C18': dict(
